@@ -215,6 +215,15 @@ def register(M):
         ex.write_path(cell, path, Adt('AtomicBool', {(None, 0): a[1]}))
         return UNIT
 
+    @reg('Atomic::fetch_add', 'Atomic::fetch_sub')
+    def _(ex, info, a, dty):
+        cell, path = ex.deref(a[0])
+        v = ex.materialize(ex.read_path(cell, path))
+        old = ex.materialize(ex.field_of(v, None, 0, 'usize'), 'usize') if isinstance(v, Adt) else v
+        new = old + a[1] if info['method'] == 'fetch_add' else old - a[1]
+        ex.write_path(cell, path, Adt(v.ty if isinstance(v, Adt) else 'Atomic', {(None, 0): new}))
+        return old
+
     @reg('AtomicBool::new')
     def _(ex, info, a, dty):
         return Adt('AtomicBool', {(None, 0): a[0]})
